@@ -1,3 +1,4 @@
-/- C13 — PIL grammar round trips: theorems are in Props/C13Pil.lean and Props/C13Kernel.lean. -/
+/- C13 — PIL grammar round trips: theorems are in Props/C13Pil.lean, C13Kernel.lean and C13More.lean. -/
 import DsdVerif.Props.C13Pil
 import DsdVerif.Props.C13Kernel
+import DsdVerif.Props.C13More
